@@ -31,7 +31,10 @@ pub fn main_helpers(args: &[String]) -> i32 {
         i += 1;
     }
     install_quiet_panic_hook();
-    let embs: [(f64, DVec3, f64); 3] = [(1.0, DVec3::ZERO, 1.0), (0.37, DVec3::new(1.5, -2.25, 0.75), 2.5), (12.5, DVec3::new(-100.0, 40.0, 7.0), 0.3)];
+    // similarity embeddings (scale, offset, rescaling of the plane normals); the last three are far from unit scale: the
+    // helpers are scale free, an absolute threshold (`< f64::EPSILON` on a squared length ...) only shows there
+    let embs: [(f64, DVec3, f64); 6] = [(1.0, DVec3::ZERO, 1.0), (0.37, DVec3::new(1.5, -2.25, 0.75), 2.5), (12.5, DVec3::new(-100.0, 40.0, 7.0), 0.3),
+        (2f64.powi(-30), DVec3::ZERO, 1.0), (1e-9, DVec3::new(3e-9, -1e-9, 2e-9), 0.7), (2f64.powi(30), DVec3::ZERO, 3.0)];
     let mut failures: Vec<Value> = vec![];
     let mut n = 0usize;
     let mut evals = 0usize;
@@ -57,7 +60,9 @@ pub fn main_helpers(args: &[String]) -> i32 {
             let pt = |v: &Value| v3(v) * h + o;
             let ept = |v: &Value| hom(v) * h + o;
             let scale = h * 4.0 + o.abs().max_element();
-            let tol = 1e-11 * (1.0 + scale);
+            // length-type errors are relative to the coordinate scale (unit-scale embeddings keep the historical 1 + scale)
+            let tol = if h >= 0.1 && h <= 100.0 { 1e-11 * (1.0 + scale) } else { 1e-11 * scale };
+            let far_from_unit = !(h >= 0.1 && h <= 100.0);
             evals += 1;
             let mut bad = |what: &str, detail: Value, failures: &mut Vec<Value>| {
                 failures.push(json!({"prop": "C19", "what": what, "detail": detail, "case": c, "expected": e, "embedding": {"h": h, "o": o.to_array(), "normal_scale": lam, "index": ei}}));
@@ -97,14 +102,15 @@ pub fn main_helpers(args: &[String]) -> i32 {
                     "signed_volume_tet" => {
                         let (a, b, cc, d) = (pt(&c["v0"]), pt(&c["v1"]), pt(&c["v2"]), pt(&c["v3"]));
                         let want = e["six"].as_f64().unwrap() / 6.0 * h * h * h;
-                        let s3 = scale * scale * scale / (1.0 + scale);
-                        errs.push(("signed volume differs from the closed form".into(), (signed_volume_tet(a, b, cc, d) - want).abs() / s3.max(1.0)));
-                        errs.push(("signed volume is not antisymmetric under a swap".into(), (signed_volume_tet(a, b, cc, d) + signed_volume_tet(b, a, cc, d)).abs() / s3.max(1.0)));
+                        // normalised so that the common tolerance (a length) applies: error / (extent^2)
+                        let s3 = if far_from_unit { (4.0 * h) * (4.0 * h) } else { (scale * scale * scale / (1.0 + scale)).max(1.0) };
+                        errs.push(("signed volume differs from the closed form".into(), (signed_volume_tet(a, b, cc, d) - want).abs() / s3));
+                        errs.push(("signed volume is not antisymmetric under a swap".into(), (signed_volume_tet(a, b, cc, d) + signed_volume_tet(b, a, cc, d)).abs() / s3));
                     }
                     "signed_area_tri" => {
                         let (a, b, cc, t) = (pt(&c["v0"]), pt(&c["v1"]), pt(&c["v2"]), pt(&c["t"]));
                         let want = 0.5 * e["foursq"].as_f64().unwrap().sqrt() * h * h * e["sign"].as_f64().unwrap();
-                        let s2 = (scale * scale / (1.0 + scale)).max(1.0);
+                        let s2 = if far_from_unit { 4.0 * h } else { (scale * scale / (1.0 + scale)).max(1.0) };
                         errs.push(("signed area differs from the closed form".into(), (signed_area_tri(a, b, cc, t) - want).abs() / s2));
                         errs.push(("signed area is not antisymmetric under a swap".into(), (signed_area_tri(a, b, cc, t) + signed_area_tri(a, cc, b, t)).abs() / s2));
                     }
